@@ -157,27 +157,14 @@ FamilyBodies == TLCEval(CASE Family = "zids"    -> ZBodiesIds(0)
 (* The classes of bodies for which the transcribed mechanism breaks some clause of the statement.  TLC verifies     *)
 (* (InvOutsideClasses) that OUTSIDE these classes the mechanism satisfies every clause; INSIDE, the broken clauses   *)
 (* are exported with the case (flags) and the binding decides on the real code.                                    *)
-IdxOf(s, key) == IF Present(s, key) THEN CHOOSE k \in DOMAIN s.order : s.order[k] = key ELSE 0
-RECURSIVE HasList(_)
-HasList(v) == \/ v.t = "list" /\ v.e # <<>>
-              \/ \E k \in DOMAIN v.kv : HasList(v.kv[k].v)
-ZClasses(b) ==
-  (IF b.framing = "ndjson" THEN {"zipkin-ndjson"} ELSE {})
-  \cup (IF \E n \in DOMAIN b.spans : LET s == b.spans[n] IN
-             /\ Present(s, "localEndpoint") /\ Present(s, "remoteEndpoint") /\ s.local # NoName
-             /\ IdxOf(s, "localEndpoint") < IdxOf(s, "remoteEndpoint")
-         THEN {"zipkin-local-before-remote"} ELSE {})
-  \cup (IF \E n \in DOMAIN b.spans : Present(b.spans[n], "parentId") /\ Len(b.spans[n].parent) < W
-         THEN {"zipkin-short-parent"} ELSE {})
+ZClasses(b) == {}          \* none: the Zipkin mechanism satisfies every clause for every body
 OClasses(b) ==
-  (IF \E n \in DOMAIN OSpans(b) : LET e == OSpans(b)[n] IN \E k \in DOMAIN (e.span.attrs \o e.rattrs) : HasList((e.span.attrs \o e.rattrs)[k].v)
-   THEN {"otlp-list-attribute"} ELSE {})
-  \cup (IF \E n \in DOMAIN OSpans(b) : LET e == OSpans(b)[n] IN
+  (IF \E n \in DOMAIN OSpans(b) : LET e == OSpans(b)[n] IN
              GetAttr(e.span.attrs, "peer.service").found /\ GetAttr(e.rattrs, "service.name").found
          THEN {"otlp-peer.service-and-service.name"} ELSE {})
 Classes(b) == IF b.proto = "zipkin" THEN ZClasses(b) ELSE OClasses(b)
 InvOutsideClasses == (pc = "done" /\ Classes(body) = {}) => Flags = {}
-InvCleanDecoderArray == (body.proto = "zipkin" /\ ~IsZ("ndjson")) => InvCleanDecoder
+InvCleanDecoderArray == body.proto = "zipkin" => InvCleanDecoder      \* both framings
 
 (* ----------------------------------------------- export --------------------------------------------------- *)
 DefOut(n) == LET d == Def(n) IN [tid |-> d.tid, sid |-> d.sid, parent |-> d.parent, name |-> d.name, ts |-> d.ts, dur |-> d.dur,
